@@ -139,8 +139,9 @@ func run(dir string, env []string, name string, args ...string) (string, error) 
 // ---- build -----------------------------------------------------------------------
 
 type builtBin struct {
-	path  string
-	stats map[string]interface{}
+	gensim string
+	path   string
+	stats  map[string]interface{}
 }
 
 var (
@@ -274,6 +275,14 @@ func buildScenario(b *Batch) *builtBin {
 	if b.Family {
 		ensureFamily()
 	}
+	gensimPath := ""
+	if b.GenSim {
+		gensimPath = filepath.Join(scratch, fmt.Sprintf("gensim%d", idx))
+		out, err = run(scratch, goEnv, "go", "build", "-overlay", overlay, "-o", gensimPath, "verif/cmd/gensim")
+		if err != nil {
+			die(2, "building the simulated generator failed (exit 2: build trouble, not a violation): %v\n%s", err, out)
+		}
+	}
 	bin := filepath.Join(scratch, fmt.Sprintf("%s-%d.test", filepath.Base(b.Pkg), idx))
 	targs := []string{"test", "-c", "-overlay", overlay, "-vet=off", "-o", bin}
 	if !b.NoRace {
@@ -285,7 +294,7 @@ func buildScenario(b *Batch) *builtBin {
 		die(2, "building scenario %s failed (exit 2: build trouble, not a violation): %v\n%s", b.Pkg, err, out)
 	}
 	logf("built %s in %.1fs", b.Pkg, time.Since(t0).Seconds())
-	bb := &builtBin{path: bin, stats: map[string]interface{}{}}
+	bb := &builtBin{path: bin, stats: map[string]interface{}{}, gensim: gensimPath}
 	if data, err := os.ReadFile(statsFile); err == nil {
 		json.Unmarshal(data, &bb.stats)
 	}
@@ -297,6 +306,14 @@ func buildScenario(b *Batch) *builtBin {
 
 func workerEnv(b *Batch, prop string, extra ...string) []string {
 	env := append([]string{}, goEnv...)
+	if b.GenSim {
+		if bb := built[b.Pkg+"|"+b.Seams.key()]; bb != nil {
+			env = append(env, "VW_GENSIM="+bb.gensim)
+		}
+		tmp := filepath.Join(scratch, "tmp")
+		os.MkdirAll(tmp, 0755)
+		env = append(env, "VW_FAMILY_DIR="+filepath.Join(verifDir, "family"), "VW_REPO_V2="+filepath.Join(repoDir, "v2"), "VW_TMP="+tmp)
+	}
 	env = append(env, "VW_SCEN="+b.Scen, "VW_CFG="+b.Cfg, "VW_PROP="+prop, "GOMAXPROCS=2")
 	return append(env, extra...)
 }
